@@ -17,11 +17,11 @@ TRAIN_BASE, VALID_BASE = 0, 100000
 
 
 def loss_formula(loss_id, theta, train, idx):
-    return ((theta * 7 + idx * 13 + loss_id * 31 + (5 if train else 0)) % 11) * 6
+    return ((theta * 7 + idx * 13 + loss_id * 31 + (5 if train else 0)) % 11) * 12
 
 
 def metric_formula(m, theta, train, idx):
-    return ((theta * 3 + idx * 5 + m * 17 + (1 if train else 0)) % 7) * 6
+    return ((theta * 3 + idx * 5 + m * 17 + (1 if train else 0)) % 7) * 12
 
 
 def plain_formula(k):
@@ -36,6 +36,7 @@ class ScriptNet(nn.Module):
     def __init__(self, theta0, n_out=1):
         super().__init__()
         self.w = nn.Parameter(torch.tensor([float(theta0)] * n_out, dtype=torch.float64))
+        self.NN = nn.Sequential()   # `save()` describes networks through their `.NN` attribute (as FCNN has)
 
     def forward(self, x):
         return x[:, :1] * 0 + self.w
@@ -53,12 +54,15 @@ class World:
         self.steps = 0
 
 
+CURRENT_WORLD = [None]   # used when `load()` re-creates the optimiser from its class alone
+
+
 class PlainOpt(torch.optim.Optimizer):
     kind = 'plain'
 
-    def __init__(self, params, world):
+    def __init__(self, params, world=None):
         super().__init__(params, dict(lr=1.0))
-        self.world = world
+        self.world = world if world is not None else CURRENT_WORLD[0]
 
     def zero_grad(self, set_to_none=True):
         self.world.events.append('Z')
@@ -79,9 +83,9 @@ class PlainOpt(torch.optim.Optimizer):
 class ClosureOpt(torch.optim.Optimizer):
     kind = 'closure'
 
-    def __init__(self, params, world):
+    def __init__(self, params, world=None):
         super().__init__(params, dict(lr=1.0))
-        self.world = world
+        self.world = world if world is not None else CURRENT_WORLD[0]
 
     def zero_grad(self, set_to_none=True):
         self.world.events.append('Z')
@@ -102,23 +106,31 @@ class ClosureOpt(torch.optim.Optimizer):
         return loss
 
 
+from neurodiffeq.generators import BaseGenerator as _BaseGenerator
+
+
+class SpyGen(_BaseGenerator):
+    """spy leaf: the k-th draw returns n_points copies of (base + k + d/16) in dimension d"""
+
+    def __init__(self, world, train, n_points, n_dims):
+        super().__init__()
+        self.world, self.train, self.n_points, self.n_dims = world, train, n_points, n_dims
+        self.size = n_points
+        self.count = 0
+        # attributes `load()` reads from the saved training generator to rebuild the solver
+        self.t_min, self.t_max, self.xy_min, self.xy_max = 0.0, 1.0, (0.0, 0.0), (1.0, 1.0)
+
+    def get_examples(self):
+        idx = self.count
+        self.count += 1
+        self.world.events.append(f'D{1 if self.train else 0}:{idx}')
+        base = (TRAIN_BASE if self.train else VALID_BASE) + idx
+        cols = [torch.full((self.n_points,), float(base) + d / 16.0, requires_grad=True) for d in range(self.n_dims)]
+        return cols[0] if self.n_dims == 1 else tuple(cols)
+
+
 def make_spy_gen(world, train, n_points, n_dims):
-    from neurodiffeq.generators import BaseGenerator
-
-    class Spy(BaseGenerator):
-        def __init__(self):
-            super().__init__()
-            self.size = n_points
-            self.count = 0
-
-        def get_examples(self):
-            idx = self.count
-            self.count += 1
-            world.events.append(f'D{1 if train else 0}:{idx}')
-            base = (TRAIN_BASE if train else VALID_BASE) + idx
-            cols = [torch.full((n_points,), float(base) + d / 16.0, requires_grad=True) for d in range(n_dims)]
-            return cols[0] if n_dims == 1 else tuple(cols)
-    return Spy()
+    return SpyGen(world, train, n_points, n_dims)
 
 
 def decode_idx(coord):
@@ -273,6 +285,41 @@ def run_script(lines, **kw):
             run.fit(int(p[1]))
             out += run.out
             run.out = []
+        elif p[0] == 'save':
+            import tempfile, dill
+            path = tempfile.mktemp(prefix='verif-c18-')
+            dill.settings['byref'] = p[1] == '1'     # '0': dill as installed (pickling torch optimiser classes fails)
+            wrote = True
+            try:
+                run.solver.save(path=path)
+            except Exception as e:
+                wrote = False
+                run.save_error = f'{type(e).__name__}'
+            finally:
+                dill.settings['byref'] = False
+            run.saved_path = path if wrote else None
+            out.append(f'SAVE wrote={"true" if wrote else "false"} ' + run.dump())
+        elif p[0] == 'saveload':
+            import tempfile, dill, os, io, contextlib
+            path = tempfile.mktemp(prefix='verif-c18-')
+            dill.settings['byref'] = True
+            try:
+                run.solver.save(path=path)
+                CURRENT_WORLD[0] = None
+                with contextlib.redirect_stdout(io.StringIO()):
+                    # the optimiser is rebuilt by load() from its class: give it the loaded world afterwards
+                    loaded = type(run.solver).load(path=path)
+            finally:
+                dill.settings['byref'] = False
+                if os.path.exists(path):
+                    os.remove(path)
+            w2 = loaded.generator['train'].generator.world
+            loaded.optimizer.world = w2
+            run.original = run.solver
+            run.solver, run.world, run.nets = loaded, w2, loaded.nets
+            run.call = 0
+            run.sched = {}
+            out.append('SL ' + run.dump())
         elif p[0] == 'getsol':
             try:
                 sol = run.solver.get_solution(copy=p[1] == '1', best=p[2] == '1')
